@@ -7,6 +7,7 @@ import (
 	"fmt"
 	"go/token"
 	"go/types"
+	"os"
 	"sort"
 	"strings"
 
@@ -518,9 +519,21 @@ func ruleSort(c *Ctx) []*Ob {
 					stackArg = a
 				}
 			}
+			walkDebug = os.Getenv("MOSSLINT_DEBUG") != "" && p.fn == "(*Store).persist"
+			defer func() { walkDebug = false }()
 			ok := stackArg != nil && mustPrecede(f, k, func(j ssa.Instruction) bool {
 				e, isC := j.(*ssa.Call)
-				return isC && e.Call.StaticCallee() == ensureFull && sameValue(e.Call.Args[0], stackArg)
+				hit := isC && e.Call.StaticCallee() == ensureFull && sameValue(e.Call.Args[0], stackArg)
+				if hit && os.Getenv("MOSSLINT_DEBUG") != "" {
+					fmt.Fprintf(os.Stderr, "DEBUG via hit at %s in %s: arg=%s (%T) stackArg=%s (%T)\n", c.instrPos(j), j.Parent(), e.Call.Args[0], e.Call.Args[0], stackArg, stackArg)
+					for _, og := range origins(e.Call.Args[0]) {
+						fmt.Fprintf(os.Stderr, "   origin(arg): %s %T in %v\n", og, og, og.Parent())
+					}
+					for _, og := range origins(stackArg) {
+						fmt.Fprintf(os.Stderr, "   origin(stackArg): %s %T in %v\n", og, og, og.Parent())
+					}
+				}
+				return hit
 			}, nil)
 			why := "ensureFullySorted on the incoming stack precedes " + p.callee
 			if !ok {
